@@ -622,7 +622,8 @@ def minimize_lbfgsb(
                         jac=grad,
                         nfev=sf.nfev,
                         njev=sf.ngev,
-                        nit=istate.nit,
+                        # the iteration is complete: same count as the final result
+                        nit=istate.nit + 1,
                         status=istate.warnflag,
                         message=istate.task_str,
                         x=x,
